@@ -13,13 +13,7 @@ from ..common import Violation
 PROP = "C01"
 CONSTRUCTORS = {"Transpose", "Adjoint", "NoDispatch", "Product", "Sum", "Kronecker", "KronSum", "BlockDiag",
                 "Concatenated", "Sliced"}
-ASSUMPTIONS = [
-    "NumPy backend only; jax/torch code paths are not observed",
-    "backend shim (harness/shim.py: vmap, linear_transpose, sparse_csr, to_np, PolyFn autodiff) is trusted",
-    "expected matrices are exact Gaussian rationals computed by TLC from Expr.tla!Denote; the harness compares "
-    "cola's floating-point output with tolerance 1e-4 (single) / 1e-9 (double) relative to the largest entry",
-    "products Denote(t)·x are formed in the harness from TLC's exact matrix (a plain complex128 matmul)",
-]
+ASSUMPTIONS = opsfam.ASSUMPTIONS
 
 
 def plan(tier, seed):
@@ -112,34 +106,13 @@ def observe(c):
     return out
 
 
+RULE = ("every distinct TLC state of MC_Ops (one operator tree) is one case; non-trivial = has at least one "
+        "combinator node; each case is observed through shape, dtype, to_dense, densify and 4-8 products")
+
+
 def run(tier):
-    t0 = time.time()
-    runs = plan(tier, common.seed())
-    cases, stats = opsfam.run_model(PROP, runs)
-    cases = [c for c in cases if c["wf"]]
-    res = common.pmap(observe, cases)
-    viol = [v for r in res for v in r]
-    nontriv = {(__import__("json").dumps(c["t"], sort_keys=True)) for c in cases if opsfam.nontrivial(c)}
-    cov = {
-        "states": stats["distinct"], "transitions": stats["states"],
-        "traces_validated_against_impl": len(cases),
-        "evaluations": len(cases), "distinct_nontrivial": len(nontriv),
-        "rule": "every distinct TLC state of MC_Ops (one operator tree) is one case; non-trivial = has at least one "
-                "combinator node; each case is observed through shape, dtype, to_dense, densify and 4-8 products",
-        "samples": opsfam.sample_cases(cases, 6),
-        "exhaustive": False,
-        "tlc_runs": stats["tlc_runs"],
-        "checker_cmd": "tlc MC_Ops.tla (spec/MC_Ops.tla, Expr.tla, Mat.tla, generated Catalog.tla)",
-    }
-    return common.finish(PROP, tier, t0, cov, viol, ASSUMPTIONS)
+    return opsfam.run_generic(PROP, tier, plan, observe, ASSUMPTIONS, RULE, keep=lambda c: c["wf"])
 
 
 def replay(path):
-    import json
-    v = json.load(open(path))
-    res = observe(v["replay"])
-    for r in res:
-        print(f"VIOLATION property={PROP} replay={path}\n  clause={r.clause} case={r.case} :: {r.detail}")
-    new, seen, known = common.triage(PROP, res)
-    print(f"replayed 1 case: {len(res)} violation(s), {len(new)} not covered by known findings")
-    return 1 if new else 0
+    return opsfam.replay_generic(PROP, observe, path)
